@@ -530,6 +530,7 @@ func TestConcurrentScope(t *testing.T) {
 	// names, likewise: certificates whose names decide what applies (.onion names, reverse-DNS names, internal names)
 	// next to a certificate with thousands of unremarkable dNSNames - a walk over those takes long enough for the
 	// short ones to pass through the same name helpers many times (even index: short, odd index: long)
+	namesFrom := len(ders)
 	{
 		var short [][]byte
 		for i := 0; i < len(co.Certs) && len(short) < 6; i++ {
@@ -545,7 +546,7 @@ func TestConcurrentScope(t *testing.T) {
 			}
 		}
 		var gns []*dt.Node
-		for i := 0; i < stats.Scale(2500, 6000); i++ {
+		for i := 0; i < stats.Scale(700, 5000); i++ {
 			gns = append(gns, gen.GNDNS([]byte(fmt.Sprintf("host%d.example.com", i))))
 		}
 		for _, sh := range short {
@@ -594,6 +595,40 @@ func TestConcurrentScope(t *testing.T) {
 	for e := range errs {
 		if rec.Report("c10", "scope-differs-from-sequential", e, program{}) {
 			t.Fatalf("%s", e)
+		}
+	}
+	// the name pairs once more among themselves: four goroutines stay with the long certificates, three walk the short ones
+	if n := len(ders) - namesFrom; n >= 2 {
+		errs2 := make(chan string, 8)
+		start2 := make(chan struct{})
+		for w := 0; w < 7; w++ {
+			wg.Add(1)
+			go func(w int) {
+				defer wg.Done()
+				<-start2
+				for it := 0; it < stats.Scale(14, 300); it++ {
+					i := namesFrom + 2*((w+it)%(n/2))
+					if w < 4 {
+						i++ // long
+					}
+					c, ok := gen.ParseCert(ders[i])
+					if !ok {
+						continue
+					}
+					if d := engine.Digest(zlint.LintCertificateEx(c, g)); d != alone[i] {
+						errs2 <- fmt.Sprintf("certificate %d: verdicts %s while other goroutines lint certificates with other (and very many) names, %s alone", i, d, alone[i])
+						return
+					}
+				}
+			}(w)
+		}
+		close(start2)
+		wg.Wait()
+		close(errs2)
+		for e := range errs2 {
+			if rec.Report("c10", "names-differ-from-sequential", e, program{}) {
+				t.Fatalf("%s", e)
+			}
 		}
 	}
 	rec.EvalN(int64(W * iters))
